@@ -77,6 +77,7 @@ type H struct {
 	reported      map[int64][2]int64 // head reported in the NewTerm response, by term
 	ackedIn       map[int64]int64    // highest offset acknowledged on a stream of the term
 	hasReported   map[int64]bool
+	incarnation   int // see newIncarnation
 	acts          []string
 	outs          []string
 	viol          map[string]string
@@ -155,7 +156,7 @@ func (h *H) onAppended(g *gateWal, e ent, leader bool) {
 	if !leader {
 		onBehalf = h.reqTerm
 	}
-	if onBehalf < h.fencedTerm {
+	if onBehalf < h.fencedTerm && h.fencedTerm >= 0 {
 		h.violate("fenced:wal-grew-with-old-term-entry",
 			fmt.Sprintf("entry %v appended to the WAL on behalf of term %d after NewTerm(%d) answered OK", e, onBehalf, h.fencedTerm))
 	}
@@ -217,7 +218,8 @@ func (h *H) onAck(s *streamH, off int64) {
 			h.violate("ack:not-durable", fmt.Sprintf("Ack(%d) on stream of term %d while entry %v is not synced (last synced %d)",
 				off, s.term, e, synced))
 		}
-		if ti != nil && ti.envOK {
+		// (a stream without a term belongs to no particular leader: there is no leader log to compare with)
+		if ti != nil && ti.envOK && s.term >= 0 {
 			if e.off >= int64(len(ti.log)) || ti.log[e.off] != e {
 				le := "none"
 				if e.off < int64(len(ti.log)) {
@@ -341,16 +343,31 @@ func (h *H) drainWrites() string {
 // olderAccepted: "after a node has answered a new-term request for term T it never again accepts ... on behalf of any term
 // lower than T": a request of kind k carrying term t was accepted
 func (h *H) olderAccepted(kind string, t int64) {
-	if t >= h.fencedTerm || (kind != "DS" && t < 0) {
-		return
+	if t >= h.fencedTerm || h.fencedTerm < 0 || (kind != "DS" && t < 0) {
+		return // (no NewTerm answered since the shard was created: nothing is fenced)
 	}
 	if h.snapFailed || h.termLost {
 		// the open finding (stored term lost by a snapshot install that failed half-way) explains it
 		h.violate("newterm:older-term-accepted-after-failed-snapshot-and-restart", fmt.Sprintf(
 			"%s of term %d accepted after NewTerm(%d) had been answered: a snapshot install failed after its first chunk and the stored term is gone", kind, t, h.fencedTerm))
+		h.fencedTerm = t // the node has forgotten the fence: the consequences are not reported again
+		h.newIncarnation()
 		return
 	}
 	h.violate("fence:older-term-request-accepted", fmt.Sprintf("%s of term %d accepted after NewTerm(%d) had been answered", kind, t, h.fencedTerm))
+}
+
+// newIncarnation: the node has forgotten the terms it had answered (its shard was deleted, or by a defect that has been
+// reported): what the leaders of those terms knew about its log no longer describes it.  Their logs are dropped; a term that
+// is announced again gets a new leader (the generator follows through the counter).
+func (h *H) newIncarnation() {
+	h.mu.Lock()
+	defer h.mu.Unlock()
+	h.incarnation++
+	h.terms = map[int64]*termInfo{}
+	h.reported = map[int64][2]int64{}
+	h.hasReported = map[int64]bool{}
+	h.ackedIn = map[int64]int64{}
 }
 
 // checkTermRegress: the node is in a term lower than one it answered NewTerm for
@@ -373,6 +390,7 @@ func (h *H) checkTermRegress(view string) {
 		h.violate("fence:term-regressed", fmt.Sprintf("the node had answered NewTerm(%d) and is now in term %d", h.fencedTerm, term))
 	}
 	h.fencedTerm = term // reported once
+	h.newIncarnation()
 }
 
 func (h *H) record(act, res string) {
@@ -476,6 +494,7 @@ func (h *H) newTermRecord(t int64, resp *proto.NewTermResponse, err error) {
 				h.violate("newterm:older-term-accepted-after-fence", fmt.Sprintf("NewTerm(%d) answered OK after NewTerm(%d) had been answered", t, h.fencedTerm))
 			}
 			h.fencedTerm = t // the node has forgotten the fence: the consequences are not reported again
+			h.newIncarnation()
 		}
 		h.snapFailed, h.termLost, h.killed = false, false, false
 		if t > h.fencedTerm {
@@ -927,6 +946,7 @@ func (h *H) doDeleteShard(t int64) {
 		h.mu.Unlock()
 		h.fencedTerm = -1
 		h.snapFailed, h.termLost, h.killed = false, false, false
+		h.newIncarnation()
 	} else if loaded {
 		_ = h.sd.Close()
 		h.mu.Lock()
